@@ -17,6 +17,7 @@ from .values import (
     Opaque,
     SLazy,
     SObj,
+    SymbolicMarker,
     Unsupported,
     fresh_name,
     is_symbolic,
@@ -403,6 +404,14 @@ def sv_attr(interp, obj: SV, name):
 
 
 def _str_method(interp, s, name, *args):
+    if name == "join":
+        items = interp.iterate(args[0])
+        parts = []
+        for i, it in enumerate(items):
+            if i:
+                parts.append(s)
+            parts.append(it)
+        return concat_str(interp, parts) if parts else ""
     z = to_z3(s)
     if name == "startswith":
         return SV(z3.PrefixOf(to_z3(args[0]), z), "bool")
@@ -477,7 +486,7 @@ def slist_binop(interp, op, a, b):
     return slist.binop(interp, op, a, b)
 
 
-class SymEnv:
+class SymEnv(SymbolicMarker):
     """The arbitrary environment over which `ev` is evaluated: uninterpreted functions."""
 
     def __init__(self, tag="env"):
@@ -819,7 +828,45 @@ def list_index(interp, lst, x, *a):
     return SV(z3.simplify(acc), "int")
 
 
-LIST_METHOD_MODELS = {"index": list_index}
+def list_count(interp, lst, x):
+    """list/tuple.count on scalars."""
+    acc = 0
+    for e in lst:
+        eq = as_bool_sv(interp, interp.compare(ast.Eq(), e, x))
+        if eq is True:
+            acc = acc + 1 if not isinstance(acc, SV) else SV(acc.z + 1, "int")
+        elif eq is False:
+            continue
+        else:
+            one = z3.If(eq.z, z3.IntVal(1), z3.IntVal(0))
+            acc = SV((acc.z if isinstance(acc, SV) else z3.IntVal(acc)) + one, "int")
+    return acc
+
+
+LIST_METHOD_MODELS = {"index": list_index, "count": list_count}
+
+
+class SSet(list):
+    """A set of symbolic scalars: a list of pairwise distinct representatives (distinctness decided per path)."""
+
+
+def symbolic_set(interp, xs):
+    out = SSet()
+    for x in xs:
+        dup = False
+        for y in out:
+            eq = as_bool_sv(interp, interp.compare(ast.Eq(), x, y))
+            if eq is True or (isinstance(eq, SV) and interp.ctx.branch(eq, "set-dedup")):
+                dup = True
+                break
+        if not dup:
+            out.append(x)
+    return out
+
+
+@model(set)
+def _set(interp, xs=()):
+    return symbolic_set(interp, interp.iterate(xs))
 
 
 @model(map)
